@@ -85,6 +85,8 @@ mod permissions;
 #[cfg(test)]
 mod test_utils;
 mod validation;
+#[cfg(feature = "verif-hooks")]
+pub mod verif_hooks;
 mod welcomes;
 
 pub use self::encryption::EncryptionConfig;
@@ -454,6 +456,8 @@ impl MdkSqliteStorage {
     where
         F: FnOnce(&Connection) -> T,
     {
+        #[cfg(feature = "verif-hooks")]
+        crate::verif_hooks::tick("with_connection");
         let conn = self.connection.lock().unwrap();
         f(&conn)
     }
@@ -472,6 +476,8 @@ impl MdkSqliteStorage {
             .map_err(|e| Error::Database(format!("Time error: {}", e)))?
             .as_secs() as i64;
 
+        #[cfg(feature = "verif-hooks")]
+        crate::verif_hooks::tick("snapshot:begin");
         // Begin transaction for atomicity
         conn.execute("BEGIN IMMEDIATE", [])
             .map_err(|e| Error::Database(e.to_string()))?;
@@ -496,6 +502,8 @@ impl MdkSqliteStorage {
                 &mls_group_id_bytes,
                 now,
             )?;
+            #[cfg(feature = "verif-hooks")]
+            crate::verif_hooks::tick("snapshot:openmls_proposals");
             Self::snapshot_openmls_proposals(
                 &conn,
                 &mut insert_stmt,
@@ -504,6 +512,8 @@ impl MdkSqliteStorage {
                 &mls_group_id_bytes,
                 now,
             )?;
+            #[cfg(feature = "verif-hooks")]
+            crate::verif_hooks::tick("snapshot:openmls_own_leaf_nodes");
             Self::snapshot_openmls_own_leaf_nodes(
                 &conn,
                 &mut insert_stmt,
@@ -512,6 +522,8 @@ impl MdkSqliteStorage {
                 &mls_group_id_bytes,
                 now,
             )?;
+            #[cfg(feature = "verif-hooks")]
+            crate::verif_hooks::tick("snapshot:openmls_epoch_key_pairs");
             Self::snapshot_openmls_epoch_key_pairs(
                 &conn,
                 &mut insert_stmt,
@@ -521,8 +533,14 @@ impl MdkSqliteStorage {
                 now,
             )?;
             // MDK tables use raw bytes for mls_group_id
+            #[cfg(feature = "verif-hooks")]
+            crate::verif_hooks::tick("snapshot:groups");
             Self::snapshot_groups_table(&conn, &mut insert_stmt, name, group_id_bytes, now)?;
+            #[cfg(feature = "verif-hooks")]
+            crate::verif_hooks::tick("snapshot:group_relays");
             Self::snapshot_group_relays(&conn, &mut insert_stmt, name, group_id_bytes, now)?;
+            #[cfg(feature = "verif-hooks")]
+            crate::verif_hooks::tick("snapshot:group_exporter_secrets");
             Self::snapshot_group_exporter_secrets(
                 &conn,
                 &mut insert_stmt,
@@ -536,6 +554,8 @@ impl MdkSqliteStorage {
 
         match result {
             Ok(()) => {
+                #[cfg(feature = "verif-hooks")]
+                crate::verif_hooks::tick("txn:commit");
                 conn.execute("COMMIT", [])
                     .map_err(|e| Error::Database(e.to_string()))?;
                 Ok(())
@@ -926,6 +946,8 @@ impl MdkSqliteStorage {
                 .map_err(|e| Error::Database(e.to_string()))?
         };
 
+        #[cfg(feature = "verif-hooks")]
+        crate::verif_hooks::tick("restore:begin");
         // Begin transaction for atomicity - critical to prevent data loss on failure
         conn.execute("BEGIN IMMEDIATE", [])
             .map_err(|e| Error::Database(e.to_string()))?;
@@ -933,24 +955,32 @@ impl MdkSqliteStorage {
         let result = (|| -> Result<(), Error> {
             // 2. Delete current rows for this group from all 7 tables
             // OpenMLS tables use MlsCodec-serialized group_id as their key
+            #[cfg(feature = "verif-hooks")]
+            crate::verif_hooks::tick("restore:delete:openmls_group_data");
             conn.execute(
                 "DELETE FROM openmls_group_data WHERE group_id = ?",
                 [&mls_group_id_bytes],
             )
             .map_err(|e| Error::Database(e.to_string()))?;
 
+            #[cfg(feature = "verif-hooks")]
+            crate::verif_hooks::tick("restore:delete:openmls_proposals");
             conn.execute(
                 "DELETE FROM openmls_proposals WHERE group_id = ?",
                 [&mls_group_id_bytes],
             )
             .map_err(|e| Error::Database(e.to_string()))?;
 
+            #[cfg(feature = "verif-hooks")]
+            crate::verif_hooks::tick("restore:delete:openmls_own_leaf_nodes");
             conn.execute(
                 "DELETE FROM openmls_own_leaf_nodes WHERE group_id = ?",
                 [&mls_group_id_bytes],
             )
             .map_err(|e| Error::Database(e.to_string()))?;
 
+            #[cfg(feature = "verif-hooks")]
+            crate::verif_hooks::tick("restore:delete:openmls_epoch_key_pairs");
             conn.execute(
                 "DELETE FROM openmls_epoch_key_pairs WHERE group_id = ?",
                 [&mls_group_id_bytes],
@@ -959,18 +989,24 @@ impl MdkSqliteStorage {
 
             // For MDK tables, we need to disable foreign key checks temporarily
             // or delete in the right order to avoid FK violations
+            #[cfg(feature = "verif-hooks")]
+            crate::verif_hooks::tick("restore:delete:group_exporter_secrets");
             conn.execute(
                 "DELETE FROM group_exporter_secrets WHERE mls_group_id = ?",
                 [group_id_bytes],
             )
             .map_err(|e| Error::Database(e.to_string()))?;
 
+            #[cfg(feature = "verif-hooks")]
+            crate::verif_hooks::tick("restore:delete:group_relays");
             conn.execute(
                 "DELETE FROM group_relays WHERE mls_group_id = ?",
                 [group_id_bytes],
             )
             .map_err(|e| Error::Database(e.to_string()))?;
 
+            #[cfg(feature = "verif-hooks")]
+            crate::verif_hooks::tick("restore:delete:groups");
             conn.execute(
                 "DELETE FROM groups WHERE mls_group_id = ?",
                 [group_id_bytes],
@@ -1047,6 +1083,8 @@ impl MdkSqliteStorage {
 
             // Now restore all other tables (groups already done above)
             for (table_name, row_key, row_data) in &snapshot_rows {
+                #[cfg(feature = "verif-hooks")]
+                crate::verif_hooks::tick("restore:insert");
                 match table_name.as_str() {
                     "openmls_group_data" => {
                         let (gid, data_type): (Vec<u8>, String) =
@@ -1119,6 +1157,8 @@ impl MdkSqliteStorage {
                 }
             }
 
+            #[cfg(feature = "verif-hooks")]
+            crate::verif_hooks::tick("restore:consume");
             // 4. Delete the consumed snapshot (may be no-op if CASCADE already deleted them)
             conn.execute(
                 "DELETE FROM group_state_snapshots WHERE snapshot_name = ? AND group_id = ?",
@@ -1129,6 +1169,8 @@ impl MdkSqliteStorage {
             // 5. Re-insert other snapshots that were deleted by CASCADE
             // This preserves multiple snapshots when rolling back to one of them.
             for (snap_name, table_name, row_key, row_data, created_at) in &other_snapshots {
+                #[cfg(feature = "verif-hooks")]
+                crate::verif_hooks::tick("restore:reinsert_other");
                 conn.execute(
                     "INSERT INTO group_state_snapshots (snapshot_name, group_id, table_name, row_key, row_data, created_at)
                      VALUES (?, ?, ?, ?, ?, ?)",
@@ -1142,6 +1184,8 @@ impl MdkSqliteStorage {
 
         match result {
             Ok(()) => {
+                #[cfg(feature = "verif-hooks")]
+                crate::verif_hooks::tick("txn:commit");
                 conn.execute("COMMIT", [])
                     .map_err(|e| Error::Database(e.to_string()))?;
                 Ok(())
